@@ -273,3 +273,83 @@ proof fn lemma_dmap_swap(ds: Seq<Seq<char>>, i: int)
         lemma_dmap_swap(ds.drop_last(), i);
     }
 }
+
+// =====================================================================================================
+// C06, weak form for ARBITRARY selection JSON: whatever the selection, every selected digest has a disclosure the holder
+// holds (so a returned presentation contains only genuine disclosures).  Follows from the definitions of sel_* alone,
+// hence from the exact-selection contracts C06.select_obj / C06.select_arr, which have no type-consistency precondition.
+// =====================================================================================================
+spec fn all_in(ds: Seq<Seq<char>>, dm: DM) -> bool { forall|i: int| 0 <= i < ds.len() ==> dm.contains_key(#[trigger] ds[i]) }
+proof fn lemma_all_in_add(a: Seq<Seq<char>>, b: Seq<Seq<char>>, dm: DM)
+    requires all_in(a, dm), all_in(b, dm)
+    ensures all_in(a + b, dm)
+{
+    assert forall|i: int| 0 <= i < (a + b).len() implies dm.contains_key(#[trigger] (a + b)[i]) by {
+        if i < a.len() { assert((a + b)[i] == a[i]); } else { assert((a + b)[i] == b[i - a.len()]); }
+    }
+}
+proof fn lemma_sel_obj_in_dm(p: Seq<(Seq<char>, J)>, dm: DM, sel: Seq<(Seq<char>, J)>, n: nat)
+    ensures /*C06.genuine_only*/ sel_obj(p, dm, sel, n) matches Some(ds) ==> all_in(ds, dm)
+    decreases sel, n, 0nat
+{
+    if !(n == 0 || n > sel.len()) {
+        lemma_sel_obj_in_dm(p, dm, sel, (n - 1) as nat);
+        let (k, s) = sel[n - 1];
+        if !skip_sel(s) {
+            lemma_member_children_in_dm(p, dm, k, s);
+            let sdm = sdm_spec(p, dm);
+            if !j_has(p, k) && sdm.contains_key(k) { lemma_sdm_digest_in_dm(sd_list_of(p), dm, k); }
+            match (sel_obj(p, dm, sel, (n - 1) as nat), member_children(p, dm, k, s), member_own(p, dm, k)) {
+                (Some(a), Some(b), Some(c)) => { lemma_all_in_add(a, b, dm); lemma_all_in_add(a + b, c, dm); }
+                _ => {}
+            }
+        }
+    }
+}
+proof fn lemma_member_children_in_dm(p: Seq<(Seq<char>, J)>, dm: DM, k: Seq<char>, s: J)
+    ensures member_children(p, dm, k, s) matches Some(ds) ==> all_in(ds, dm)
+    decreases s, 0nat, 1nat
+{
+    let sdm = sdm_spec(p, dm);
+    match s {
+        J::Arr(sa) => match j_get(p, k) {
+            Some(J::Arr(na)) => { lemma_sel_arr_in_dm(na, dm, sa, minn(sa.len(), na.len())); }
+            _ => { if sdm.contains_key(k) && sdm[k].0 is Arr { lemma_sel_arr_in_dm(sdm[k].0->Arr_0, dm, sa, minn(sa.len(), sdm[k].0->Arr_0.len())); } }
+        },
+        J::Obj(so) => { if so.len() > 0 { match j_get(p, k) {
+            Some(J::Obj(no)) => { lemma_sel_obj_in_dm(no, dm, so, so.len()); }
+            _ => { if sdm.contains_key(k) && sdm[k].0 is Obj { lemma_sel_obj_in_dm(sdm[k].0->Obj_0, dm, so, so.len()); } }
+        } } },
+        _ => {}
+    }
+}
+proof fn lemma_sel_arr_in_dm(na: Seq<J>, dm: DM, sa: Seq<J>, n: nat)
+    ensures /*C06.genuine_only_arr*/ sel_arr(na, dm, sa, n) matches Some(ds) ==> all_in(ds, dm)
+    decreases sa, n, 0nat
+{
+    if !(n == 0 || n > sa.len() || n > na.len()) {
+        lemma_sel_arr_in_dm(na, dm, sa, (n - 1) as nat);
+        lemma_elem_children_in_dm(sa[n - 1], na[n - 1], dm);
+        match (sel_arr(na, dm, sa, (n - 1) as nat), elem_own(sa[n - 1], na[n - 1], dm), elem_children(sa[n - 1], na[n - 1], dm)) {
+            (Some(a), Some(b), Some(c)) => { lemma_all_in_add(a, b, dm); lemma_all_in_add(a + b, c, dm); }
+            _ => {}
+        }
+    }
+}
+proof fn lemma_elem_children_in_dm(s: J, e: J, dm: DM)
+    ensures elem_children(s, e, dm) matches Some(ds) ==> all_in(ds, dm)
+    decreases s, 0nat, 1nat
+{
+    match placeholder_digest(e) {
+        Some(d) => { if !(!dm.contains_key(d) || s == J::Bool(true)) { if let J::Arr(x) = dm[d] { match (s, j_arr_get(x, 1)) {
+            (J::Arr(sa2), Some(J::Arr(na2))) => { lemma_sel_arr_in_dm(na2, dm, sa2, minn(sa2.len(), na2.len())); }
+            (J::Obj(so2), Some(J::Obj(no2))) => { lemma_sel_obj_in_dm(no2, dm, so2, so2.len()); }
+            _ => {}
+        } } } },
+        None => match (s, e) {
+            (J::Obj(so2), J::Obj(eo)) => { lemma_sel_obj_in_dm(eo, dm, so2, so2.len()); }
+            (J::Arr(sa2), J::Arr(na2)) => { lemma_sel_arr_in_dm(na2, dm, sa2, minn(sa2.len(), na2.len())); }
+            _ => {}
+        },
+    }
+}
